@@ -27,7 +27,7 @@ PH_TYPES = {
 def placeholder_variant(r, ident, kind):
     """Returns (Variant, literal) with a to_string literal using placeholders."""
     tys = [r.choice(list(PH_TYPES)) for _ in range(r.randint(1, 3))]
-    esc = ["", "{{", "}}", "{{}}", "{{x}}", " ", "-", "é", "{{{{", "}}}}"]
+    esc = ["", "{{", "}}", "{{}}", "{{x}}", " ", "-", "é", "{{{{", "}}}}", "{{0}}", "{{0", "{{1}}", "{{f}}", "{{field0}}", "{{s", "0}}", "{{:>4}}"]
     if kind == "tuple":
         fields = [Field(ty=t) for t in tys]
         order = list(range(len(tys)))
@@ -121,6 +121,8 @@ def build(r, name):
                     v.serialize = v.serialize[:1]
             if any(strgen.has_placeholder_braces(s) for s in v.serialize + [v.to_string or ""]):
                 v.serialize, v.to_string = [], None
+        if prefix and v.to_string is not None and r.random() < 0.25:
+            v.to_string = prefix + v.to_string     # an explicit name that already begins with the prefix text
         v.disabled = r.random() < 0.1
         v.split_attrs = r.choice([0, 1, 2])
         vs.append(v)
